@@ -378,8 +378,9 @@ pub fn run(ctx: &Ctx) -> Report {
         }
         Tier::Thorough => {
             fams.push((3, sequences(64, 2), "n3_sequences_le2", true));
-            fams.push((3, sequences(64, 3).into_iter().filter(|m| m.len() == 3).step_by(5).collect(), "n3_sequences_3_every_5th", true));
-            fams.push((4, multisets(256, 2).into_iter().step_by(3).collect(), "n4_multisets_le2_every_3rd", false));
+            fams.push((3, sequences(64, 3).into_iter().filter(|m| m.len() == 3).collect(), "n3_sequences_3", false));
+            fams.push((3, multisets(64, 3).into_iter().filter(|m| m.len() == 3).step_by(3).collect(), "n3_multisets_3_every_3rd_with_partial_models", true));
+            fams.push((4, multisets(256, 2), "n4_multisets_le2", false));
         }
     }
     for (n, mut sets, name, with_models) in fams {
@@ -500,6 +501,12 @@ pub fn run(ctx: &Ctx) -> Report {
     // expressions
     let k = 3;
     let mut ex = exprs_up_to(k, 3);
+    if ctx.tier == Tier::Thorough {
+        // every 29th tree with exactly 4 connectives on top
+        let four: Vec<Ex> = exprs_up_to(4, 3).into_iter().skip(ex.len()).step_by(29).collect();
+        rep.bound("expressions_4_connectives", json!({"trees": four.len(), "rule": "every 29th tree with exactly 4 connectives"}));
+        ex.extend(four);
+    }
     ctx.rotate(&mut ex);
     let chunks: Vec<&[Ex]> = ex.chunks(256).collect();
     let fam = par_run(ctx, &chunks, |_, chunk| {
